@@ -324,7 +324,7 @@ let parse_fs (w : string list) : (n list * n list) list * (nat * fault) list * s
   | [] -> failwith "bad FS"
 
 let class_of_err = function
-  | ENotEnoughParity -> "err:notenough" | EIO -> "err:io" | ENotExist -> "err:notexist" | _ -> "err:other"
+  | ENotEnoughParity -> "err:notenough" | EIO -> "err:io" | ENotExist -> "err:notexist" | ESingular -> "err:singular" | _ -> "err:other"
 let res_str = function Ok _ -> "ok" | Err e -> class_of_err e | Panic _ -> "panic"
 let trace_str (tr : ioev list) : string =
   String.concat "," (List.map (function
